@@ -59,12 +59,19 @@ def check_base(rep):
     R.instance()
     W = cbuild.probe_c('default', [], [('w', 'sizeof(uintmax_t)')], 'umax')['w']
     b = cast.body(fn)
-    whiles = [n for n in b['inner'] if n.get('kind') == 'WhileStmt']
+    whiles = [n for n in b['inner'] if n.get('kind') in ('WhileStmt', 'ForStmt')]      # the word loop, written either way
     switches = [n for n in b['inner'] if n.get('kind') == 'SwitchStmt']
     rets = [n for n in b['inner'] if n.get('kind') == 'ReturnStmt']
     if len(whiles) != 1 or len(switches) != 1 or len(rets) != 1:
         raise AnalysisBroken('mem_zero_detect_base: unrecognised shape (while=%d switch=%d return=%d); the byte-loop idiom or the word-loop+switch idiom is expected' % (len(whiles), len(switches), len(rets)))
     wh = whiles[0]
+    if wh['kind'] == 'ForStmt':
+        if len(wh['inner']) != 5:
+            raise AnalysisBroken('mem_zero_detect_base: for-statement with %d parts' % len(wh['inner']))
+        # for (init; cond; inc) body == init; while (cond) { body; inc; } (the body has no continue)
+        if cast.find_all(wh['inner'][4], 'ContinueStmt'):
+            raise AnalysisBroken('mem_zero_detect_base: continue inside the word loop')
+        wh = {'kind': 'WhileStmt', 'range': wh.get('range'), 'loc': wh.get('loc'), 'inner': [wh['inner'][2], {'kind': 'CompoundStmt', 'inner': [wh['inner'][4], wh['inner'][3]]}]}
     cond = cast.strip(wh['inner'][0])
     okc = cond.get('kind') == 'BinaryOperator' and cond.get('opcode') == '>=' and cast.strip(cond['inner'][0]).get('referencedDecl', {}).get('name') == 'n' and \
         cast.strip(cond['inner'][1]).get('kind') == 'UnaryExprOrTypeTraitExpr'
